@@ -348,6 +348,61 @@ def _registry_history_case(args):
     return cnt, out
 
 
+def _copy_case(args):
+    """A copy of a configuration is independent of the original: editing
+    values of the copy in place (lists, arrays under [user]) or setting keys
+    in it leaves the original - and what is written from it - unchanged."""
+    import copy as _copy
+    from dclab.rtdc_dataset.config import Configuration
+    out = []
+    cnt = 0
+    base = {"user": {"list": [1, 2, 3], "arr": np.array([1.5, 2.5]),
+                     "nested": {"a": [1]}, "num": 4.5},
+            "setup": {"channel width": 20.0, "medium": "water"},
+            "online_filter": {"area_um,deform polygon points":
+                              [[1, 2], [3, 4], [5, 1]]}}
+    for how in ("copy-method", "copy-module", "constructor"):
+        cnt += 1
+        case = {"kind": "copy", "how": how}
+        cfg = Configuration(cfg=_copy.deepcopy(base))
+        snap = repr({s: dict(cfg[s]) for s in ("user", "setup",
+                                                "online_filter")})
+        if how == "copy-method":
+            c2 = cfg.copy()
+        elif how == "copy-module":
+            c2 = _copy.deepcopy(cfg)
+        else:
+            c2 = Configuration(cfg={s: dict(cfg[s]) for s in
+                                    ("user", "setup", "online_filter")})
+            if how == "constructor":
+                # only the documented copies are required to be deep
+                continue
+        try:
+            c2["user"]["list"].append(99)
+            c2["user"]["arr"] *= 2
+            c2["user"]["nested"]["a"].append(5)
+            c2["setup"]["channel width"] = 30.0
+            c2["user"]["num"] = 0
+            pts = c2["online_filter"]["area_um,deform polygon points"]
+            if isinstance(pts, np.ndarray) and pts.flags.writeable:
+                pts += 1
+        except BaseException as e:
+            out.append(violation(CFG, "exception", case,
+                                 f"{type(e).__name__}: {e}",
+                                 {"route": "copy", "exc": type(e).__name__}))
+            continue
+        now = repr({s: dict(cfg[s]) for s in ("user", "setup",
+                                               "online_filter")})
+        if now != snap:
+            out.append(violation(
+                CFG.replace("ConfigurationDict.__setitem__",
+                            "Configuration.copy"),
+                "copy-not-independent", case,
+                f"editing the copy changed the original: {snap} -> {now}",
+                {"route": "copy", "how": how}))
+    return cnt, out
+
+
 def _file_case(args):
     """Routes through storage: configuration file, HDF5 attributes, export,
     compress."""
@@ -528,6 +583,7 @@ def run(ctx):
     res = par.pmap(_memory_case, [(c, nch) for c in range(nch)])
     res += par.pmap(_reject_case, [()])
     res += par.pmap(_registry_history_case, [()])
+    res += par.pmap(_copy_case, [()])
     res += par.pmap(_file_case, [(c, nch, ctx.scratch) for c in range(nch)])
     res += par.pmap(_handwritten_case, [(c, nch, ctx.scratch)
                                         for c in range(nch)])
@@ -571,6 +627,8 @@ def run(ctx):
 
 
 def replay(case, ctx):
+    if case["kind"] == "copy":
+        return [v for v in _copy_case(())[1] if v["case"] == case]
     if case["kind"] == "registry":
         _, vs = _registry_history_case(())
         return [v for v in vs if v["case"] == case]
